@@ -424,6 +424,18 @@ func main() {
 					if !bytes.Equal(g1.Payload, s1) || !bytes.Equal(g2.Payload, s2) || !bytes.Equal(g3.Payload, s3) {
 						return explore.Failf("copying-helper-result-aliases-input", "")
 					}
+					// the same helpers on frames whose header already says masked / not masked
+					for _, masked := range []bool{false, true} {
+						q := append([]byte{}, orig...)
+						fr := ws.NewBinaryFrame(q)
+						fr.Header.Masked, fr.Header.Mask = masked, [4]byte{5, 6, 7, 8}
+						for hi, helper := range []func(){func() { ws.MaskFrame(fr) }, func() { ws.MaskFrameWith(fr, [4]byte{1, 2, 3, 4}) }, func() { ws.UnmaskFrame(fr) }} {
+							helper()
+							if !bytes.Equal(q, orig) {
+								return explore.Failf(fmt.Sprintf("copying-helper-%d-modified-input:header-masked=%v", hi, masked), "")
+							}
+						}
+					}
 					return nil
 				})
 			}
